@@ -18,7 +18,10 @@ def c03 (form : String) (e a pre : Bytes) (tag : String) (contents : Bytes)
     (typed plain : Option Bytes) : String :=
   -- form "after": the action follows the END tag of element `e` (written with separator `pre` before '>'), so it is
   -- top-level element content whatever `e` is
-  let ctx : Option Cx := if form == "after" then reviewedContent [] else if form == "content" then
+  -- "script-type": `<script type="…">{{.}}</script>` is script content whatever the type says;
+  -- "after-break": the action follows a loop (top-level content) and must not land inside an attribute value
+  let ctx : Option Cx := if form == "script-type" then reviewedContent (B "script")
+    else if form == "after" || form == "after-break" then reviewedContent [] else if form == "content" then
       (if Oracle.C04.htmlVoid.contains (Oracle.C04.lowerB e) then reviewedContent [] else reviewedContent (Oracle.C04.lowerB e))
     else reviewedAttr (Oracle.C04.lowerB e) (Oracle.C04.lowerB a) []
   match typed with
@@ -27,7 +30,12 @@ def c03 (form : String) (e a pre : Bytes) (tag : String) (contents : Bytes)
     -- (1) inside an attribute value nothing may terminate the attribute or the tag
     let r := tokenize out
     let attrOk : Bool :=
-      if form == "content" || form == "after" then true
+      if form == "after-break" then
+        -- the typed value is at top level: it must not be found inside any attribute value of the output
+        contents.isEmpty || !(r.tokens.any fun t => match t with
+          | .startTag _ attrs _ => attrs.any fun a => Oracle.C01.contains contents a.2
+          | _ => false)
+      else if form == "content" || form == "after" || form == "script-type" then true
       else match r.tokens with
         -- exactly the one start tag with the one attribute (the tokenizer may then be in the RCDATA / RAWTEXT /
         -- script state of that element, which is the author's doing)
@@ -41,7 +49,7 @@ def c03 (form : String) (e a pre : Bytes) (tag : String) (contents : Bytes)
         | _ => false
       if isAllowed then
         -- (2) contents intact in its own context
-        let seen : Bytes := if form == "content" || form == "after" then out
+        let seen : Bytes := if form == "content" || form == "after" || form == "script-type" || form == "after-break" then out
           else match r.tokens with
             | [.startTag _ [(_, v)] _] => CharRef.decodeAttr v
             | _ => []
@@ -54,7 +62,7 @@ def c03 (form : String) (e a pre : Bytes) (tag : String) (contents : Bytes)
           -- inside an attribute the value passes the HTML escaper, which replaces NUL, other control characters,
           -- noncharacters and invalid UTF-8 by U+FFFD (C10): intact means intact up to that coercion
           else Oracle.C01.contains contents seen ||
-            (form != "content" && form != "after" && Oracle.C01.contains (SafeHtml.Spec.refCoerce contents) seen)
+            (form != "content" && form != "after" && form != "script-type" && form != "after-break" && Oracle.C01.contains (SafeHtml.Spec.refCoerce contents) seen)
         if (pre.isEmpty || form == "after") && !intact then "fail:typed-value-not-emitted-intact-in-its-own-context"
         else "pass"
       else
